@@ -1327,6 +1327,40 @@ def check_squeeze(ctx):
                                            'keeps its axis (witness: '
                                            'ds[0:0, :].squeeze() raises '
                                            'ValueError)'})
+    # comprehension spelling: the bins that are KEPT satisfy a filter
+    for node in walk_local(meth.node):
+        if not isinstance(node, (ast.GeneratorExp, ast.ListComp,
+                                 ast.DictComp)):
+            continue
+        for gen in node.generators:
+            if 'bins' not in txt(gen.iter) or not gen.ifs:
+                continue
+            test = gen.ifs[0] if len(gen.ifs) == 1 else ast.BoolOp(
+                op=ast.And(), values=list(gen.ifs))
+            names = {x.id for x in ast.walk(test) if isinstance(x, ast.Name)}
+            if len(names) != 1:
+                ctx.undecided('SQUEEZE-CMP', meth, f'filter {txt(test)}',
+                              at=meth.where(node))
+                continue
+            var = names.pop()
+            n += 1
+            try:
+                code = compile(ast.fix_missing_locations(
+                    ast.Expression(body=test)), '<filter>', 'eval')
+                vals = {d: bool(eval(code, {'__builtins__': {}}, {var: d}))
+                        for d in range(0, 8)}
+            except Exception:   # pylint: disable=broad-except
+                ctx.undecided('SQUEEZE-CMP', meth, f'filter {txt(test)}',
+                              at=meth.where(node))
+                continue
+            ok = vals == {d: d != 1 for d in range(0, 8)}
+            ctx.decide('SQUEEZE-CMP', meth, f'bins kept when `{txt(test)}`',
+                       ok, at=meth.where(node),
+                       detail={'kept_for_lengths': [d for d, v in
+                                                    vals.items() if v],
+                               'required': 'every length but 1: numpy '
+                                           'squeeze keeps a dimension of '
+                                           'length 0'})
     ctx.floor('SQUEEZE-CMP', n, 1, 'predicate guarding the removal of bins '
               'in squeeze')
     # value and error are squeezed alike
@@ -1339,3 +1373,73 @@ def check_squeeze(ctx):
             not val.args and not err.args
         ctx.decide('SLICE-APPLY', meth, f'squeeze: value={txt(val)}, '
                    f'error={txt(err)}', ok, at=meth.where(call))
+
+
+# ------------------------------------------------------------ EDGE-KIND ---
+
+def check_edge_kind(ctx):
+    """Whether the bins of a dimension are edges (N+1 values) or centres (N)
+    is decided WHEN SLICING, from the current bins and the current shape:
+    the attributes of a dataset may be replaced after construction
+    (documented, and done by the tests), so a kind remembered in the
+    constructor selects the wrong slice of the new bins."""
+    klass = dataset_class(ctx.program)
+    n = 0
+    for meth in klass.methods.values():
+        loops = {}
+        for node in ast.walk(meth.node):
+            if isinstance(node, (ast.For, ast.comprehension)) and isinstance(
+                    node.iter, ast.Call) and call_name(node.iter) == 'zip' \
+                    and isinstance(node.target, ast.Tuple) and len(
+                        node.target.elts) == len(node.iter.args):
+                for elt, src in zip(node.target.elts, node.iter.args):
+                    if isinstance(elt, ast.Name):
+                        loops[elt.id] = src
+        for node in walk_local(meth.node):
+            if isinstance(node, ast.IfExp):
+                branches = [node.body, node.orelse]
+            elif isinstance(node, ast.If) and node.orelse:
+                branches = [ast.Module(body=node.body, type_ignores=[]),
+                            ast.Module(body=node.orelse, type_ignores=[])]
+            else:
+                continue
+            uses = ['_get_bins_slice' in txt(b) if not isinstance(
+                b, ast.Module) else any('_get_bins_slice' in txt(s_)
+                                        for s_ in b.body) for b in branches]
+            if sorted(uses) != [False, True]:
+                continue
+            n += 1
+            test = node.test
+            construct = f'{meth.name}: edges / centres selected by ' \
+                        f'`{txt(test)[:50]}`'
+            lens = [c for c in ast.walk(test) if isinstance(c, ast.Call) and
+                    call_name(c) == 'len' and c.args and
+                    'bins' in txt(c.args[0])]
+            srcs = {name: txt(loops[name]) for name in
+                    {x.id for x in ast.walk(test) if isinstance(x, ast.Name)}
+                    if name in loops}
+            live = {'self.shape', 'self.value.shape', 'self.bins',
+                    'self.bins.values()', 'self.bins.items()', 'slices',
+                    'index'}
+            stale = {k: v for k, v in srcs.items()
+                     if v.startswith('self.') and v not in live and
+                     not v.startswith('self.bins') and
+                     not v.startswith('self.value') and
+                     not v.startswith('self.shape')}
+            if lens and not stale:
+                ctx.holds('EDGE-KIND', meth, construct, at=meth.where(node))
+            elif stale:
+                ctx.violated('EDGE-KIND', meth, construct,
+                             at=meth.where(node),
+                             detail={'decided_from': stale,
+                                     'why': 'a kind stored on the object is '
+                                            'not recomputed when ds.bins '
+                                            '(or one of its entries) is '
+                                            'replaced: the slice of the new '
+                                            'bins is taken with the old '
+                                            'kind'})
+            else:
+                ctx.undecided('EDGE-KIND', meth, construct,
+                              at=meth.where(node))
+    ctx.floor('EDGE-KIND', n, 1, 'selection between the cell slice and the '
+                                 'edge slice')
